@@ -29,6 +29,7 @@ LEVEL_NOTE = ("Closed-form callables for solve_ivp / quad cannot integrate the a
               "minimizers get the same.")
 RULE = ("case = (functional, variant {closed, wrap, names, bad}, size/seed, option dictionary); non-trivial = the spy fired at least once "
         "(custom variants) and at least one second-order gradient was compared, or (name variants) at least two spellings were executed")
+RULE += ('; group special: unknown name with an all-zero right-hand side, closed-form callable returning one of its input objects, method entry in bck_options for every functional; a wrap callable reaching another solution than the built-in is a violation')
 MIN_NONTRIVIAL = {"quick": 200, "thorough": 1200}
 REQUIRED_COUNTERS = {"quick": {"custom_calls_observed": 150, "names_compared": 100, "second_order_compared": 150},
                      "thorough": {"custom_calls_observed": 900, "names_compared": 600, "second_order_compared": 900}}
